@@ -22,7 +22,7 @@ CLAIMS = {
             "ORD-3, GRD-3, GRD-13, PAIR-9 boundary inputs, KEY-1, PAIR-5 filter registration, VERD-1, PAIR-1 version pins, GRD-5",
             "§5 C03, §11.3", "control-dependence guards + origin dataflow + lock regions"),
     "C04": ("PAIR-7 direction agreement of the 20 positioning methods of TwoLevelIterator / FilesEntryIterator / MergingIterator / "
-            "DatabaseIterator, PAIR-8 reversal repositions the inner iterator, PAIR-11 a re-loaded child iterator is positioned before use, "
+            "DatabaseIterator, PAIR-8 reversal repositions the inner iterator and the forward search is started in skipping mode by next() only, PAIR-11 a re-loaded child iterator is positioned before use, "
             "ITR-1 / ITR-2 state discipline of the client iterator's collapse loops (invisible records change nothing, every visible record rewrites the "
             "cache, exact key-boundary tests), KEY-1 key order, GRD-3 sequence filter of the client iterator; NOT the cursor-vs-sorted-map equivalence", "§6/§11.3 C04",
             "sibling direction table + must-pass-through"),
